@@ -24,7 +24,9 @@ def guard(ctx, crate, tag=""):
         b = ctx.anchor(crate, fn, "axis-guard")
         if b is None: continue
         # recursion and the geometry helpers are irrelevant to the guard: do not inline them
-        e, r = run_fn(crate, fn, opaque={"nested::Layer::elliptical_cone_coverage_recur", "sph_geom::elliptical_cone::EllipticalCone::new"})
+        small = lambda n: crate.body(n) is not None and len(crate.body(n).blocks) <= 25
+        e, r = run_fn(crate, fn, opaque={"nested::Layer::elliptical_cone_coverage_recur", "sph_geom::elliptical_cone::EllipticalCone::new"},
+                      inline=lambda n, d: "elliptical_cone_coverage" in n or n == "nested::get_or_create" or small(n))
         ctx.functions |= e.visited_fns
         n += 1
         key = "%s:a%s" % (fn, tag)
